@@ -6,6 +6,10 @@ package main
 // re-assembly and mutation helpers.
 
 import (
+	"crypto"
+	"crypto/ecdsa"
+	"crypto/rand"
+	"crypto/rsa"
 	"crypto/x509"
 	"encoding/base64"
 	"encoding/json"
@@ -242,4 +246,48 @@ func certsDER(certs []*x509.Certificate) [][]byte {
 		out = append(out, c.Raw)
 	}
 	return out
+}
+
+// ResignJWS replaces the payload of a JWS envelope and signs it again with key (by hand: core-go's JWS writer insists on a
+// JSON object as payload, its verifier does not).
+func ResignJWS(env []byte, payload []byte, key crypto.Signer) []byte {
+	p := parseJWS(env)
+	p.Payload = base64.RawURLEncoding.EncodeToString(payload)
+	prot, err := base64.RawURLEncoding.DecodeString(p.Protected)
+	must(err)
+	var hdr struct {
+		Alg string `json:"alg"`
+	}
+	must(json.Unmarshal(prot, &hdr))
+	var h crypto.Hash
+	switch hdr.Alg[2:] {
+	case "256":
+		h = crypto.SHA256
+	case "384":
+		h = crypto.SHA384
+	case "512":
+		h = crypto.SHA512
+	default:
+		panic("ResignJWS: unknown alg " + hdr.Alg)
+	}
+	hh := h.New()
+	hh.Write([]byte(p.Protected + "." + p.Payload))
+	sum := hh.Sum(nil)
+	var sig []byte
+	switch k := key.(type) {
+	case *ecdsa.PrivateKey:
+		r, s, err := ecdsa.Sign(rand.Reader, k, sum)
+		must(err)
+		n := (k.Curve.Params().BitSize + 7) / 8
+		sig = make([]byte, 2*n)
+		r.FillBytes(sig[:n])
+		s.FillBytes(sig[n:])
+	case *rsa.PrivateKey:
+		sig, err = rsa.SignPSS(rand.Reader, k, h, sum, &rsa.PSSOptions{SaltLength: rsa.PSSSaltLengthEqualsHash})
+		must(err)
+	default:
+		panic("ResignJWS: unsupported key type")
+	}
+	p.Signature = base64.RawURLEncoding.EncodeToString(sig)
+	return p.bytes()
 }
